@@ -3,7 +3,9 @@
 
   `derived_isAdjW` : if the adjoint identity (relative to a test functional ρ) holds for every leaf, it holds for
   every operator derived from the leaves by the constructions of `_linop.py` / `_stack.py`, provided the tree
-  passes the shape checks scico itself performs (`wf`) and its scalar factors can be pulled out of ρ.
+  passes the shape checks scico itself performs (`wf`) and no divisor is zero.  No condition on the scalar factors:
+  scico applies `conj c` to the argument of the operand's adjoint (`adj_fn = self.adj(conj(c)*y)`), so the scalar is
+  never pulled out of ρ (this is what makes complex multiples of real→complex operators adjoint pairs in `Re⟪·,·⟫`).
 -/
 import Scico.Proofs.AdjointRep
 
@@ -11,26 +13,6 @@ namespace Scico.Adjoint
 open Finset
 
 variable {K : Type} [Field K] [StarRing K]
-
-/-- side conditions on the scalar factors of a tree: for `ρ = id` only "divisors are non-zero"; for `ρ = 2 Re`
-    additionally "scalars are real" -/
-def scalOK (ρ : K → K) : Expr K → Prop
-  | .leaf _ => True
-  | .add a b => scalOK ρ a ∧ scalOK ρ b
-  | .sub a b => scalOK ρ a ∧ scalOK ρ b
-  | .neg a => scalOK ρ a
-  | .smul c a => ScalOK ρ c ∧ scalOK ρ a
-  | .sdiv c a => c ≠ 0 ∧ ScalOK ρ c⁻¹ ∧ scalOK ρ a
-  | .comp a b => scalOK ρ a ∧ scalOK ρ b
-  | .tr _ a => scalOK ρ a
-  | .herm a => scalOK ρ a
-  | .cj a => scalOK ρ a
-  | .gram a => scalOK ρ a
-  | .vnil _ => True
-  | .vcons a s => scalOK ρ a ∧ scalOK ρ s
-  | .dnil => True
-  | .dcons a s => scalOK ρ a ∧ scalOK ρ s
-  | .drep _ _ _ a => scalOK ρ a
 
 /-- divisors are non-zero -/
 def divOK : Expr K → Prop
@@ -51,26 +33,8 @@ def divOK : Expr K → Prop
   | .dcons a s => divOK a ∧ divOK s
   | .drep _ _ _ a => divOK a
 
-theorem scalOK_id_of_divOK : ∀ e : Expr K, divOK e → scalOK id e
-  | .leaf _, _ => trivial
-  | .add a b, h => ⟨scalOK_id_of_divOK a h.1, scalOK_id_of_divOK b h.2⟩
-  | .sub a b, h => ⟨scalOK_id_of_divOK a h.1, scalOK_id_of_divOK b h.2⟩
-  | .neg a, h => scalOK_id_of_divOK a h
-  | .smul c a, h => ⟨scalOK_id c, scalOK_id_of_divOK a h⟩
-  | .sdiv c a, h => ⟨h.1, scalOK_id c⁻¹, scalOK_id_of_divOK a h.2⟩
-  | .comp a b, h => ⟨scalOK_id_of_divOK a h.1, scalOK_id_of_divOK b h.2⟩
-  | .tr _ a, h => scalOK_id_of_divOK a h
-  | .herm a, h => scalOK_id_of_divOK a h
-  | .cj a, h => scalOK_id_of_divOK a h
-  | .gram a, h => scalOK_id_of_divOK a h
-  | .vnil _, _ => trivial
-  | .vcons a s, h => ⟨scalOK_id_of_divOK a h.1, scalOK_id_of_divOK s h.2⟩
-  | .dnil, _ => trivial
-  | .dcons a s, h => ⟨scalOK_id_of_divOK a h.1, scalOK_id_of_divOK s h.2⟩
-  | .drep _ _ _ a, h => scalOK_id_of_divOK a h
-
 theorem derived_isAdjW {ρ : K → K} (hρ : Test ρ) (env : Nat → Op K) (henv : ∀ i, IsAdjW ρ (env i)) :
-    ∀ e : Expr K, wf env e = true → scalOK ρ e → IsAdjW ρ (run env e)
+    ∀ e : Expr K, wf env e = true → divOK e → IsAdjW ρ (run env e)
   | .leaf i, _, _ => by simpa [run] using henv i
   | .add a b, hw, hs => by
     simp only [wf, Bool.and_eq_true, beq_iff_eq] at hw
@@ -85,15 +49,15 @@ theorem derived_isAdjW {ρ : K → K} (hρ : Test ρ) (env : Nat → Op K) (henv
   | .neg a, hw, hs => by
     simp only [wf] at hw
     simp only [run]
-    exact neg_isAdjW hρ (derived_isAdjW hρ env henv a hw hs)
+    exact neg_isAdjW (derived_isAdjW hρ env henv a hw hs)
   | .smul c a, hw, hs => by
     simp only [wf] at hw
     simp only [run]
-    exact smul_isAdjW (derived_isAdjW hρ env henv a hw hs.2) hs.1
+    exact smul_isAdjW (derived_isAdjW hρ env henv a hw hs) c
   | .sdiv c a, hw, hs => by
     simp only [wf] at hw
     simp only [run]
-    exact sdiv_isAdjW (derived_isAdjW hρ env henv a hw hs.2.2) hs.2.1
+    exact sdiv_isAdjW (derived_isAdjW hρ env henv a hw hs.2) c
   | .comp a b, hw, hs => by
     simp only [wf, Bool.and_eq_true, beq_iff_eq] at hw
     obtain ⟨⟨ha, hb⟩, hi⟩ := hw
